@@ -55,6 +55,20 @@ pub mod verif {
         sent == done
     }
 
+    /// candidate-uncle sets of the block assemblers started in this process
+    pub(crate) static UNCLES: Mutex<Vec<Weak<tokio::sync::Mutex<crate::block_assembler::CandidateUncles>>>> =
+        Mutex::new(Vec::new());
+
+    /// Forget every candidate uncle (a harness that rewinds the chain between histories would
+    /// otherwise carry candidates from one history into the next)
+    pub fn clear_candidate_uncles() {
+        for w in UNCLES.lock().expect("lock").iter() {
+            if let Some(c) = w.upgrade() {
+                c.blocking_lock().clear();
+            }
+        }
+    }
+
     /// pools of the services started in this process, latest last
     pub(crate) static POOLS: Mutex<Vec<Weak<RwLock<TxPool>>>> = Mutex::new(Vec::new());
 
